@@ -57,8 +57,8 @@ try:
             if p.returncode == 1 and viol:
                 break
 finally:
-    subprocess.run(["git", "-C", "/repo", "checkout", "--", "."])
     subprocess.run(["git", "-C", "/repo", "reset", "-q"])
+    subprocess.run(["git", "-C", "/repo", "checkout", "--", "."])
 meta["caught_by"] = sorted({k_.split()[0] for k_, v in results.items() if v["rc"] == 1 and v["violations"]})
 json.dump(meta, open(mf, "w"), indent=1)
 print("caught_by", meta["caught_by"])
